@@ -212,8 +212,10 @@ _GROUPING_OPERATOR_MAP = {
     '$sum': _sum_operation,
     '$avg': _avg_operation,
     '$mergeObjects': _merge_objects_operation,
-    '$min': lambda values: _group_operation(values, min),
-    '$max': lambda values: _group_operation(values, max),
+    '$min': lambda values: _group_operation(
+        values, functools.partial(min, key=filtering.BsonComparable)),
+    '$max': lambda values: _group_operation(
+        values, functools.partial(max, key=filtering.BsonComparable)),
     '$first': lambda values: values[0] if values else None,
     '$last': lambda values: values[-1] if values else None,
 }
